@@ -13,6 +13,7 @@ import (
 	"fmt"
 	"go/ast"
 	"go/token"
+	"regexp"
 	"sort"
 	"strconv"
 	"strings"
@@ -221,6 +222,10 @@ var sawGenCapture bool
 var unrecognised []string
 
 // timer checks the shape of `p.escTimeout = time.AfterFunc(D*time.Millisecond, func() { … })`.
+// `verifSched(p, N)` / `defer verifSched(p, N)`: yield points for forced schedules (C08), empty without the build tag
+var schedYield = regexp.MustCompile(`^(defer )?verifSched\(p, (\d+)\)$`)
+var schedYieldAny = regexp.MustCompile(`(defer )?verifSched\(p, \d+\)`)
+
 func (g *gctx) timer(as *ast.AssignStmt) bool {
 	call, ok := as.Rhs[0].(*ast.CallExpr)
 	if !ok || len(call.Args) != 2 {
@@ -246,7 +251,7 @@ func (g *gctx) timer(as *ast.AssignStmt) bool {
 	timerBody = nil
 	for _, s := range fl.Body.List {
 		t := norm(g.c.Src(s))
-		if t == "verifEscTimer(0)" || t == "defer verifEscTimer(1)" {
+		if t == "verifEscTimer(0)" || t == "defer verifEscTimer(1)" || schedYield.MatchString(t) {
 			continue // verification yield points (no-ops without the build tag)
 		}
 		timerBody = append(timerBody, t)
@@ -494,7 +499,7 @@ func gen(c *ex.Ctx) {
 		c.Fail("Parser.run not found")
 		return
 	}
-	runSrc := norm(c.Src(rf.Body))
+	runSrc := norm(schedYieldAny.ReplaceAllString(norm(c.Src(rf.Body)), " ")) // yield points of the verification build aside (pinned by Gen/ParserRun.lean)
 	bumpLoop := strings.Contains(runSrc, "r := p.readRune() p.mu.Lock() p.escGen++ p.state = anywhere(r, p)")
 	bumpEnd := strings.Contains(runSrc, "p.mu.Lock() p.escGen++ p.mu.Unlock() p.emit(EOF{}) close(p.sequences)")
 	plainLoop := strings.Contains(runSrc, "r := p.readRune() p.mu.Lock() p.state = anywhere(r, p)")
@@ -1229,6 +1234,10 @@ func genRun(c *ex.Ctx, f *ast.File) {
 			src := norm(c.Src(st))
 			if t, ok := table[src]; ok {
 				out = append(out, t)
+			} else if m := schedYield.FindStringSubmatch(src); m != nil && m[1] == "" {
+				out = append(out, "(.yield "+m[2]+")")
+			} else if m != nil {
+				out = append(out, "(.deferYield "+m[2]+")")
 			} else {
 				unrec = append(unrec, fn+": "+src)
 				out = append(out, "(.unknown "+ex.LeanStr(src)+")")
@@ -1236,12 +1245,14 @@ func genRun(c *ex.Ctx, f *ast.File) {
 		}
 		return out
 	}
-	var closeArm, dfltArm, tail []string
+	var closeArm, dfltArm, tail, loopHead []string
 	shape := false
 	if rf := ex.FindFunc(f, "Parser", "run"); rf != nil && rf.Body != nil && len(rf.Body.List) >= 1 {
 		if ls, ok := rf.Body.List[0].(*ast.LabeledStmt); ok && ls.Label.Name == "outer" {
-			if fs, ok := ls.Stmt.(*ast.ForStmt); ok && fs.Init == nil && fs.Cond == nil && fs.Post == nil && len(fs.Body.List) == 1 {
-				if sel, ok := fs.Body.List[0].(*ast.SelectStmt); ok && len(sel.Body.List) == 2 {
+			if fs, ok := ls.Stmt.(*ast.ForStmt); ok && fs.Init == nil && fs.Cond == nil && fs.Post == nil && len(fs.Body.List) >= 1 {
+				nb := len(fs.Body.List)
+				if sel, ok := fs.Body.List[nb-1].(*ast.SelectStmt); ok && len(sel.Body.List) == 2 {
+					loopHead = conv("run", runTable, fs.Body.List[:nb-1]) // what stands in front of the select (yield points)
 					c0, ok0 := sel.Body.List[0].(*ast.CommClause)
 					c1, ok1 := sel.Body.List[1].(*ast.CommClause)
 					if ok0 && ok1 && c0.Comm != nil && norm(c.Src(c0.Comm)) == "<-p.close" && c1.Comm == nil {
@@ -1302,6 +1313,7 @@ func genRun(c *ex.Ctx, f *ast.File) {
 	sb.WriteString("import VaxisModel.Model.ParserRunSk\n\nnamespace VaxisModel.Gen.ParserRun\nopen VaxisModel.Model.ParserRunSk\n\n")
 	b2s := map[bool]string{true: "true", false: "false"}
 	fmt.Fprintf(&sb, "/-- `run` is `outer: for { select { case <-p.close: …; default: … } }` followed by the statements below -/\ndef runShapeOk : Bool := %s\n\n", b2s[shape])
+	fmt.Fprintf(&sb, "/-- the statements of the loop body in front of the `select` -/\ndef runLoopHead : List RunStmt :=\n  [%s]\n\n", strings.Join(loopHead, ",\n   "))
 	fmt.Fprintf(&sb, "/-- body of `case <-p.close:` -/\ndef runClose : List RunStmt :=\n  [%s]\n\n", strings.Join(closeArm, ",\n   "))
 	fmt.Fprintf(&sb, "/-- body of the `default:` arm of the select -/\ndef runDefault : List RunStmt :=\n  [%s]\n\n", strings.Join(dfltArm, ",\n   "))
 	fmt.Fprintf(&sb, "/-- the statements of `run` after the loop -/\ndef runTail : List RunStmt :=\n  [%s]\n\n", strings.Join(tail, ",\n   "))
